@@ -274,6 +274,37 @@ theorem generated_wf_byte_raw :
       && cfgsOk wfRaw d.strCfgs []) = true := by
   decide +kernel
 
+
+open SqlglotModel.Generated.C04 in
+/-- Audited list (ast, regenerated each run) of everything in the dialect generators that can write quoted text without
+    going through the modelled base methods: (1) overrides of the quoting methods — "delegates" = the body is
+    `return super().m(…)`; anything else is pinned by a hash of its ast and has its own correspondence / search coverage
+    (T-SQL `identifier_sql`: flagged identifiers, every dialect delimiter in the name); (2) every function that touches a
+    quote / identifier delimiter attribute; (3) TRANSFORMS entries for literal-like nodes.  A new or edited override
+    breaks this theorem until it is re-audited. -/
+theorem generated_quoting_overrides :
+    quotingOverrides = ["generators/duckdb.py:DuckDBGenerator.hexstring_sql:delegates",
+       "generators/tsql.py:TSQLGenerator.identifier_sql:f107de923c5a"]
+    ∧ delimiterSites = ["dialects/dialect.py:_Dialect.__new__",
+       "dialects/dialect.py:json_extract_segments",
+       "dialects/dialect.py:json_extract_segments._json_extract_segments",
+       "generator.py:Generator.__init__",
+       "generator.py:Generator.bytestring_sql",
+       "generator.py:Generator.escape_str",
+       "generator.py:Generator.identifier_sql",
+       "generator.py:Generator.jsonpath_sql",
+       "generator.py:Generator.literal_sql",
+       "generator.py:Generator.rawstring_sql",
+       "generator.py:Generator.unicodestring_sql",
+       "generators/databricks.py:DatabricksGenerator.jsonpath_sql",
+       "generators/tsql.py:TSQLGenerator.createable_sql",
+       "generators/tsql.py:TSQLGenerator.identifier_sql"]
+    ∧ literalTransforms = ["generators/bigquery.py:BigQueryGenerator:HexString:lambda self, e: self.hexstring_sql(e, binary_function_repr='FROM_HEX')",
+       "generators/dune.py:DuneGenerator:HexString:lambda self, e: f'0x{e.this}'",
+       "generators/hive.py:HiveGenerator:National:lambda self, e: self.national_sql(e, prefix='')",
+       "generators/singlestore.py:SingleStoreGenerator:National:lambda self, e: self.national_sql(e, prefix='')"] := by
+  decide +kernel
+
 /-! ### the tables extracted from the current source (finite decision tables, decided completely) -/
 
 open SqlglotModel.Generated.C04 in
